@@ -7,6 +7,7 @@ mod e_vm;
 mod e_graph;
 mod e_types;
 mod e_sign;
+mod e_lock;
 
 fn main() {
     // panics of the implementation are caught and reported as outcomes; keep stderr quiet
@@ -20,8 +21,29 @@ fn main() {
         "graph" => e_graph::run(&a),
         "sched" => e_graph::run_sched(&a),
         "post" => e_graph::run_post(&a),
+        "perm" => e_graph::run_perm(&a),
         "types" => e_types::run(&a),
         "sign" => e_sign::run(&a),
+        "lock" => e_lock::run(&a),
+        "probe-compute-breadth" => {
+            // known finding F12: a Compute whose breadth is a huge word makes rayon collect that many results
+            use essential_asm::short::*;
+            let ops = vec![PUSH(1 << 40), COM, COME];
+            let sol = vmrun::default_solution();
+            let mut vm = essential_vm::Vm::default();
+            let r = vm.exec_ops(&ops, essential_vm::Access::new(std::sync::Arc::new(vec![sol]), 0), &e_graph::MemState::default2(), &|_: &essential_asm::Op| 1, essential_vm::GasLimit { per_yield: 4096, total: 1000 });
+            println!("probe returned: {:?}", r.map_err(|e| format!("{e}")));
+        }
+        "probe-post-read-count" => {
+            // known finding F13: a post-state read of a huge count on a contract with proposals iterates (and allocates) count times
+            use essential_types::{ContentAddress, solution::{Solution, Mutation}, PredicateAddress};
+            let c = ContentAddress([7; 32]);
+            let entries = vec![(c.clone(), vec![5i64], vec![1i64])];
+            let st = e_graph::MemState::default();
+            let _ = (Solution { predicate_to_solve: PredicateAddress { contract: c.clone(), predicate: c.clone() }, predicate_data: vec![], state_mutations: vec![Mutation { key: vec![5], value: vec![1] }] });
+            let r = essential_check::solution::verif::read_post(&entries, &st, c, vec![0], 1usize << 40);
+            println!("probe returned {} values", r.map(|v| v.len()).unwrap_or(0));
+        }
         other => { eprintln!("unknown engine {other}"); std::process::exit(2); }
     }
 }
